@@ -32,6 +32,8 @@ import (
 	"github.com/google/badwolf/storage/memoization"
 	"github.com/google/badwolf/storage/memory"
 	"github.com/google/badwolf/triple"
+	"github.com/google/badwolf/triple/node"
+	"github.com/google/badwolf/triple/predicate"
 
 	"verif/explore"
 	"verif/model"
@@ -161,7 +163,18 @@ const (
 	rdTFS    = "TriplesForSubject(a)"
 	rdObj    = "Objects(a;p@T1)"
 	rdTrip   = "Triples()"
+	// the other lookups, on the same universe (every triple has subject a and predicate p@T1; t0 has object o0)
+	rdTFP   = "TriplesForPredicate(p@T1)"
+	rdTFSP  = "TriplesForSubjectAndPredicate(a;p@T1)"
+	rdTFO0  = "TriplesForObject(o0)"
+	rdTFPO0 = "TriplesForPredicateAndObject(p@T1;o0)"
+	rdSubj0 = "Subjects(p@T1;o0)"
+	rdPFO0  = "PredicatesForObject(o0)"
+	rdPFSO0 = "PredicatesForSubjectAndObject(a;o0)"
 )
+
+// onlyT0: reads whose answer is t0's part alone
+var onlyT0 = map[string]bool{rdTFO0: true, rdTFPO0: true, rdSubj0: true, rdPFO0: true, rdPFSO0: true}
 
 // answerOn is the answer of a read on a given content (the reference: a set lookup).
 func answerOn(rd string, content uint8) string {
@@ -170,6 +183,9 @@ func answerOn(rd string, content uint8) string {
 		return fmt.Sprint(content&1 != 0)
 	case rdExist1:
 		return fmt.Sprint(content&2 != 0)
+	}
+	if onlyT0[rd] {
+		return maskStr(content & 1)
 	}
 	return maskStr(content) // all triples of the universe share subject and predicate
 }
@@ -227,6 +243,23 @@ func (h *hctx) tick(writer bool) int64 {
 
 func (h *hctx) doRead(g storage.Graph, rec *readRec, consumerName string) {
 	switch rec.rd {
+	case rdSubj0:
+		readOne(h, rec, consumerName, func(ch chan *node.Node) error { return g.Subjects(ctx, pT1, U[0].Object(), storage.DefaultLookup, ch) },
+			func(n *node.Node) bool { return model.NodeKey(n) == model.NodeKey(nA) })
+		return
+	case rdPFO0:
+		readOne(h, rec, consumerName, func(ch chan *predicate.Predicate) error {
+			return g.PredicatesForObject(ctx, U[0].Object(), storage.DefaultLookup, ch)
+		},
+			func(p *predicate.Predicate) bool { return model.PredKey(p) == model.PredKey(pT1) })
+		return
+	case rdPFSO0:
+		readOne(h, rec, consumerName, func(ch chan *predicate.Predicate) error {
+			return g.PredicatesForSubjectAndObject(ctx, nA, U[0].Object(), storage.DefaultLookup, ch)
+		}, func(p *predicate.Predicate) bool { return model.PredKey(p) == model.PredKey(pT1) })
+		return
+	}
+	switch rec.rd {
 	case rdExist0, rdExist1:
 		t := U[0]
 		if rec.rd == rdExist1 {
@@ -278,14 +311,54 @@ func (h *hctx) doRead(g storage.Graph, rec *readRec, consumerName string) {
 			rec.closed = true
 		})
 		rec.call = h.tick(false)
-		if rec.rd == rdTFS {
+		switch rec.rd {
+		case rdTFS:
 			rec.err = g.TriplesForSubject(ctx, nA, storage.DefaultLookup, ch)
-		} else {
+		case rdTFP:
+			rec.err = g.TriplesForPredicate(ctx, pT1, storage.DefaultLookup, ch)
+		case rdTFSP:
+			rec.err = g.TriplesForSubjectAndPredicate(ctx, nA, pT1, storage.DefaultLookup, ch)
+		case rdTFO0:
+			rec.err = g.TriplesForObject(ctx, U[0].Object(), storage.DefaultLookup, ch)
+		case rdTFPO0:
+			rec.err = g.TriplesForPredicateAndObject(ctx, pT1, U[0].Object(), storage.DefaultLookup, ch)
+		default:
 			rec.err = g.Triples(ctx, storage.DefaultLookup, ch)
 		}
 		rec.ret = h.tick(false)
 		done.Wait()
 		rec.got = maskStr(m) + bad
+	}
+}
+
+// readOne runs a lookup that delivers nodes or predicates: the answer is "{t0}" when exactly the element belonging
+// to t0 (its subject / its predicate) arrives once, "{}" when nothing arrives.
+func readOne[T any](h *hctx, rec *readRec, consumerName string, call func(ch chan T) error, isT0 func(T) bool) {
+	ch := vrt.MakeChan[T](h.capa)
+	n, bad := 0, ""
+	var done vsync.WaitGroup
+	done.Add(1)
+	vrt.GoNamed(consumerName, func() {
+		defer done.Done()
+		for e := range vrt.Range(ch) {
+			if !isT0(e) {
+				bad = " unknown element"
+			}
+			n++
+		}
+		rec.closed = true
+	})
+	rec.call = h.tick(false)
+	rec.err = call(ch)
+	rec.ret = h.tick(false)
+	done.Wait()
+	switch {
+	case n == 0:
+		rec.got = maskStr(0) + bad
+	case n == 1:
+		rec.got = maskStr(1) + bad
+	default:
+		rec.got = fmt.Sprintf("%d elements%s", n, bad)
 	}
 }
 
@@ -376,6 +449,17 @@ func (o op) String() string {
 		return via + "Add" + maskStr(o.Mask) + in
 	}
 	return via + "Remove" + maskStr(o.Mask) + in
+}
+
+func init() {
+	// one overlap per remaining lookup: the writer changes the answer (removes t0, or adds t1 to the listing kinds) while
+	// the reader misses the cache; afterwards the same read must agree with the wrapped store
+	for _, k := range []string{rdTrip, rdTFP, rdTFSP} {
+		scenarios = append(scenarios, scenario{Name: "LK-" + k, Initial: 0b001, Ops: []op{add("writer", 0b010), rd("reader", k)}, Final: []string{k}, Mode: explore.SleepSets, Caps: []int{0}, BoundQ: 2, BoundT: 3})
+	}
+	for _, k := range []string{rdTFO0, rdTFPO0, rdSubj0, rdPFO0, rdPFSO0} {
+		scenarios = append(scenarios, scenario{Name: "LK-" + k, Initial: 0b011, Ops: []op{rem("writer", 0b001), rd("reader", k)}, Final: []string{k}, Mode: explore.SleepSets, Caps: []int{0}, BoundQ: 2, BoundT: 3})
+	}
 }
 
 var scenarios = []scenario{
